@@ -405,35 +405,35 @@ theorem chainF (s : Bool) (env : Env) : ∀ (ch : List N), wfChain env ch = true
     have hok := retrieve_ok env rest hr
     cases n with
     | root i =>
-      simp only [ConnDeep] at hc
+      simp only [ConnDeep, ConnDeepN] at hc
       exact rootF i (chainF s env rest hr (fun hs => (hc hs).2))
     | cur i =>
-      simp only [ConnDeep] at hc
+      simp only [ConnDeep, ConnDeepN] at hc
       exact curF i (chainF s env rest hr (fun hs => (hc hs).2))
     | child i k =>
-      simp only [ConnDeep] at hc
+      simp only [ConnDeep, ConnDeepN] at hc
       exact childF i k (fun hs => (hc hs).1) (chainF s env rest hr (fun hs => (hc hs).2))
     | wild i =>
-      simp only [ConnDeep] at hc
+      simp only [ConnDeep, ConnDeepN] at hc
       exact wildF hok i (fun hs => (hc hs).1) (chainF s env rest hr (fun hs => (hc hs).2))
     | multi i ids t =>
-      simp only [ConnDeep] at hc
+      simp only [ConnDeep, ConnDeepN] at hc
       exact multiF hok i ids t (fun hs => (hc hs).1) (chainF s env rest hr (fun hs => (hc hs).2))
     | desc i a b =>
-      simp only [ConnDeep] at hc
+      simp only [ConnDeep, ConnDeepN] at hc
       exact descF hok i a b (fun hs => (hc hs).1) (chainF s env rest hr (fun hs => (hc hs).2))
     | union i subs =>
-      simp only [ConnDeep] at hc
+      simp only [ConnDeep, ConnDeepN] at hc
       exact unionF hok i subs (fun hs => (hc hs).1) (chainF s env rest hr (fun hs => (hc hs).2))
     | filter i q =>
-      simp only [ConnDeep] at hc
+      simp only [ConnDeep, ConnDeepN] at hc
       simp only [wfN] at hn
       exact filterF hok i q (computeQ_ok env q hn) (fun hs => (hc hs).1) (chainF s env rest hr (fun hs => (hc hs).2))
     | ffn i name =>
-      simp only [ConnDeep] at hc
+      simp only [ConnDeep, ConnDeepN] at hc
       exact ffnF i name (fun hs => (hc hs).1) (chainF s env rest hr (fun hs => (hc hs).2))
     | afn i name param =>
-      simp only [ConnDeep] at hc
+      simp only [ConnDeep, ConnDeepN] at hc
       simp only [wfN, Bool.and_eq_true] at hn
       exact afnF (retrieve_ok env param hn.2) i name (fun hs => (hc hs).2.2.1) (fun hs => (hc hs).2.2.2)
         (chainF s env param hn.2 (fun hs => (hc hs).1)) (chainF s env rest hr (fun hs => (hc hs).2.1))
